@@ -100,3 +100,34 @@ CHECKS["C16"] = dict(
     assumptions=["three quarters of the worlds use a non-throttling flashback stub so sequences reach deeper; a throttling answer is always acceptable",
                  "challenge expiry is not advanced (wall clock); concurrent duplicates are sampled"],
 )
+
+CHECKS["C15"] = dict(
+    test="TestC15", level="exploration", exhaustive_part=True,
+    exhaustive_part_text="the product of per-field shape classes for every request type of the three services and for vertices handed to the sync / missing-parent clients",
+    common=dict(shrinktime="10s", env={"GOMEMLIMIT": "3GiB"}),
+    quick=dict(shards=12, checks=400, timeout=900),
+    thorough=dict(shards=16, checks=6000, timeout=3000),
+    assumptions=["handlers are called in-process on the real service objects (the gRPC layer always hands them a non-nil top-level message, so nil top-level requests are not generated)",
+                 "a node that panicked is never reused (a lock may be left held)"],
+)
+
+_GOSSIP_ASSUME = [
+    "the stubs ignore the request context and never lose a message: message loss is not part of the fault model",
+    "quiescence after each delivery is read from the goroutine profile (no forward / pipe goroutine alive, origin loops back in select)",
+    "the 20 s duplicate-suppression window is not advanced; each schedule uses a fresh item",
+]
+CHECKS["C11"] = dict(
+    test="TestC11", level="exploration", exhaustive_part=True,
+    exhaustive_part_text="every connected labelled graph on 2-4 nodes x every origin x {vertex, awaiting transaction}: depth-first enumeration of all delivery orders, complete unless the per-(graph,origin) cap was hit (then the evidence says exhaustive=false and counts the capped enumerations)",
+    common=dict(shrinktime="20s", env={"GOMEMLIMIT": "3GiB"}),
+    quick=dict(shards=14, checks=30, timeout=900, env={"VERIF_C11_CAP": 80}),
+    thorough=dict(shards=16, checks=400, timeout=3400, env={"VERIF_C11_CAP": 2500}),
+    assumptions=_GOSSIP_ASSUME,
+)
+CHECKS["C12"] = dict(
+    test="TestC12", level="exploration",
+    common=dict(shrinktime="20s", env={"GOMEMLIMIT": "3GiB"}),
+    quick=dict(shards=12, checks=60, timeout=900),
+    thorough=dict(shards=16, checks=700, timeout=3400),
+    assumptions=_GOSSIP_ASSUME + ["the adversary forwards the intact item (re-sealing is out of scope) and manipulates lists, drops, duplicates and reorders"],
+)
